@@ -150,10 +150,6 @@ def run(ctx):
     for tr in traces[:3]:
         ctx.sample({"consts": tr["consts"], "events": tr["events"][:6]}, limit=3)
 
-    groups = {}
-    for tr in traces:
-        groups.setdefault((tr["consts"]["K"], tr["consts"]["N"]), []).append(tr)
-    for (kk, nn), grp in sorted(groups.items()):
-        cfg = "SPECIFICATION TraceSpec\nCONSTANTS\n  K = %d\n  N = %d\nINVARIANT TraceOK\nCHECK_DEADLOCK FALSE\n" % (kk, nn)
-        ctx.trace("mutable/TracePublishPlan", grp, cfg=cfg, key_of=key_of, what_of=what_of, batch=400, workers=4,
-                  name="TRACE mutable/TracePublishPlan (K=%d, N=%d)" % (kk, nn))
+    # one TLC run for all encodings: TracePublishPlan instantiates PublishPlan with the K, N of each trace
+    ctx.trace("mutable/TracePublishPlan", traces, key_of=key_of, what_of=what_of, batch=600, workers=4,
+              name="TRACE mutable/TracePublishPlan")
